@@ -74,6 +74,8 @@ struct Builder {
     /// encoding of the unit that refers to the program (the argument of `LineProgram::write`); defaults to
     /// the program's own encoding
     uenc: Option<Encoding>,
+    /// report instruction operands as byte tuples (cases with 64-bit values)
+    wide: bool,
 }
 
 impl Builder {
@@ -102,7 +104,7 @@ impl Builder {
         prog.file_has_md5 = flags["md5"].as_bool().unwrap_or(false);
         prog.file_has_source = flags["src"].as_bool().unwrap_or(false);
         let d0 = prog.default_directory();
-        let mut b = Builder { p, prog, lstr, strs, strform: strform.to_string(), dirs: vec![d0], files: vec![], uenc: None };
+        let mut b = Builder { p, prog, lstr, strs, strform: strform.to_string(), dirs: vec![d0], files: vec![], uenc: None, wide: false };
         let a = b.ls(b"a.c");
         let f0 = b.prog.add_file(a, d0, None);
         let bb = b.ls(b"b.c");
@@ -182,7 +184,7 @@ impl Builder {
         let mut ws = WDebugStr::from(EndianVec::new(en));
         self.lstr.write(&mut wl).unwrap();
         self.strs.write(&mut ws).unwrap();
-        read_back(w.slice(), off.0, self.p.enc.address_size, wl.slice(), ws.slice())
+        read_back_w(w.slice(), off.0, self.p.enc.address_size, wl.slice(), ws.slice(), self.wide)
     }
 }
 
@@ -231,10 +233,6 @@ fn ins_code<R: Reader>(i: &LineInstruction<R>, wide: bool) -> Value {
         LineInstruction::SetDiscriminator(v) => json!(["D", n(*v)]),
         other => json!(["?", format!("{:?}", other)]),
     }
-}
-
-fn read_back(sect: &[u8], off: usize, asz: u8, lstr: &[u8], strs: &[u8]) -> Value {
-    read_back_w(sect, off, asz, lstr, strs, false)
 }
 
 fn read_back_w(sect: &[u8], off: usize, asz: u8, lstr: &[u8], strs: &[u8], wide: bool) -> Value {
@@ -306,8 +304,9 @@ fn replay(case: &Value) -> Value {
     let strform = case["strform"].as_str().unwrap_or("string").to_string();
     let flags = case.get("flags").cloned().unwrap_or(json!({}));
     match case["sys"].as_str() {
-        Some("script") | Some("files") | Some("mixed") => {
+        Some("script") | Some("files") | Some("mixed") | Some("lines") => {
             let mut b = Builder::new(&case["P"], &strform, &flags);
+            b.wide = case["wide"].as_bool().unwrap_or(false);
             if case["uenc"].is_object() {
                 // the referring unit has its own version / format (same address size)
                 b.uenc = Some(Encoding {
@@ -439,12 +438,17 @@ fn record(out: &str, a: &Args) {
                             opi = nop;
                         }
                         off += mil * adv;
-                        line = match rng.below(8) {
+                        // 64-bit boundary line numbers in consecutive rows, both directions: advances that do
+                        // not fit an i64 are split into several DW_LNS_advance_line
+                        const LB: [u64; 13] = [0, 1, 2, (1 << 31) - 1, (1 << 31) + 1, (1 << 32) - 1, (1 << 32) + 1,
+                            i64::MAX as u64, 1 << 63, (1 << 63) + 1, u64::MAX - 1, u64::MAX, 1 << 62];
+                        line = match rng.below(11) {
+                            8 | 9 | 10 => *rng.pick(&LB),
                             0 => rng.next() >> 2,
                             1 => 0,
                             2 => line,
                             3 => line.saturating_sub(rng.below(300)),
-                            _ => line.wrapping_add(rng.below(20)) & (u64::MAX >> 2),
+                            _ => line.saturating_add(rng.below(20)),
                         };
                         json!(["row", {"off": bv(off, 8), "opi": bv(opi, 8), "file": rng.below(2), "line": bv(line, 8),
                             "col": bv(if rng.chance(1,3) { rng.boundary64() } else { rng.below(100) }, 8),
